@@ -463,7 +463,13 @@ func cp(b []byte) []byte { return append([]byte{}, b...) }
 func RunPaths(t *core.T) {
 	s := t.Src
 	opts := gen.DefaultOpts()
-	g := gen.Geometry(s, opts)
+	var g orb.Geometry
+	if s.Chance(1, 60, "big") {
+		g = gen.Big(s) // element counts beyond the decoders' preallocation caps
+		t.Probe("big_geometry")
+	} else {
+		g = gen.Geometry(s, opts)
+	}
 	oi := s.Intn(2, "order")
 	order := orders[oi]
 	srid := 0
